@@ -1195,6 +1195,15 @@ class Explore:
                         asked.add(r_["p"]["l"])
                     if r_["k"] in ("ref", "rawptr") and r_.get("mut") and r_["p"]["proj"] == [] :
                         mut_borrowed.add(r_["p"]["l"])
+        # (also asked for through x.is_none() / is_some() / is_ok() / is_err() on `&x`)
+        for b in fn.blocks:
+            t_ = b["term"]
+            if t_["k"] == "call" and "indirect" not in t_["f"] and callee_str(t_["f"]) in self._OPT_TESTS and len(t_["args"]) == 1:
+                a_ = t_["args"][0]
+                if a_["k"] in ("copy", "move") and not a_["p"]["proj"]:
+                    d_ = [x for x in fn.defs().get(a_["p"]["l"], []) if x[2]["k"] != "partial"]
+                    if len(d_) == 1 and d_[0][2]["k"] == "ref" and not d_[0][2]["p"]["proj"] and not d_[0][2].get("mut"):
+                        asked.add(d_[0][2]["p"]["l"])
         enum_auto = []
         def movable(l_, seen=()):
             d_ = fn.defs().get(l_, [])
@@ -1357,6 +1366,23 @@ class Explore:
         """public: value of a term under this exploration's assumptions (None if not determined)"""
         return self._eval_term(t)
 
+    def _ref_target(self, op, depth=0):
+        """the local whose address (or value) the operand carries: `_t = &x; f(move _t)` -> x"""
+        if op["k"] not in ("copy", "move") or op["p"]["proj"] or depth > 4:
+            return None
+        l = op["p"]["l"]
+        if l in self.tracked:
+            return l
+        d = [x for x in self.fn.defs().get(l, []) if x[2]["k"] != "partial"]
+        if len(d) != 1:
+            return None
+        r = d[0][2]
+        if r["k"] == "ref" and not r["p"]["proj"]:
+            return r["p"]["l"] if r["p"]["l"] in self.tracked else None
+        if r["k"] == "use":
+            return self._ref_target(r["op"], depth + 1)
+        return None
+
     def _agg_vidx(self, op, depth=0):
         """variant index of a fieldless enum value moved through temporaries"""
         if op["k"] not in ("copy", "move") or op["p"]["proj"] or depth > 8:
@@ -1402,7 +1428,14 @@ class Explore:
             # the result of a call that the assumptions determine (x.is_none() of an assumed x, ...), else unknown
             try:
                 ct = ("call", callee_str(t["f"]), tuple(self.terms.operand(a) for a in t["args"]), bb)
-                st[t["dest"]["l"]] = self._eval_term(ct)
+                v = self._eval_term(ct)
+                if v is None and callee_str(t["f"]) in self._OPT_TESTS and len(t["args"]) == 1:
+                    # x.is_none() / is_some() / is_ok() / is_err() of a followed local (through the `&x` temporary)
+                    src = self._ref_target(t["args"][0])
+                    if src is not None and src in st and st[src] is not None:
+                        sv = st[src].vidx if isinstance(st[src], EV) else st[src]
+                        v = int(sv == self._OPT_TESTS[callee_str(t["f"])])
+                st[t["dest"]["l"]] = v
             except Exception:
                 st[t["dest"]["l"]] = None
         return tuple((l, st[l]) for l in self.tracked)
